@@ -2,7 +2,7 @@
 CHECK = {'level': 'exploration',
  'rule': 'rapidcheck generates an abstract document (blocks, frames, scalars, loops, nested lists/tables, CIF 2.0 or CIF 1.1 repertoire) and an '
          'independent layout tape (whitespace, comments, delimiter per value, text-field fold/prefix encodings, keyword case, BOM); my own printer '
-         'renders it; 3% of the CIF 2.0 documents get an extra data block holding one token longer than the scanner's whole buffer (131200 units: text field, triple-quoted string, or a run of insignificant whitespace) between two marker items; non-trivial = >= 3 delimiter kinds, or a folded/prefixed text field, or a composite, or a non-BMP character; distinct = hash '
+         'renders it; 3% of the CIF 2.0 documents get an extra data block holding one token longer than the whole scan buffer (131200 units: text field, triple-quoted string, or a run of insignificant whitespace) between two marker items; non-trivial = >= 3 delimiter kinds, or a folded/prefixed text field, or a composite, or a non-BMP character; distinct = hash '
          'of the document bytes',
  'assumptions': ['the layout printer (harness/common/cifprint.cpp) implements the CIF 2.0/1.1 grammar and the text prefix / line-folding protocols '
                  'as specified',
